@@ -392,6 +392,31 @@ pub fn contexts() -> Vec<Ctx> {
     ]
 }
 
+/// Loops whose body runs a committing construct (look-behind, look-ahead, atomic group, condition) over a body with
+/// several matching alternatives that the VM interprets itself: if the construct did not commit, every iteration
+/// would leave an alternative behind and a failing tail would cost exponentially many backtracks.
+pub fn loop_commit_products() -> Vec<Node> {
+    let neg = |c: char| Look(bx(Lit(c)), false, true);
+    let hard_alts: Vec<Node> = vec![
+        Alt(vec![cat(vec![Lit('a'), neg('c')]), cat(vec![Perl('w'), neg('b')])]),
+        Alt(vec![cat(vec![Lit('a'), Look(bx(Empty), false, false)]), Any]),
+        Alt(vec![cat(vec![Assert(A::NotWordB), Lit('a')]), cat(vec![Look(bx(Empty), false, false), Class(false, vec![('a', 'b')])])]),
+        Alt(vec![cat(vec![Look(bx(Lit('a')), false, false), Any]), cat(vec![Any, Look(bx(Empty), false, false)])]),
+    ];
+    let mut out = vec![];
+    for f in &hard_alts {
+        let star = |body: Node| cat(vec![Assert(A::StartText), Repeat(bx(body), 0, None, Q::Greedy), Lit('c')]);
+        out.push(star(cat(vec![Any, Look(bx(f.clone()), true, false)])));
+        out.push(star(cat(vec![Look(bx(f.clone()), false, false), Any])));
+        out.push(star(Atomic(bx(f.clone()))));
+        out.push(star(cat(vec![Any, Look(bx(Look(bx(f.clone()), true, false)), false, false)])));
+        out.push(star(CondExpr(bx(f.clone()), bx(Empty), bx(Lit('b')))));
+        out.push(star(cat(vec![Group(bx(Atomic(bx(f.clone())))), Look(bx(Backref(1)), true, false)])));
+        out.push(cat(vec![Repeat(bx(cat(vec![Any, Look(bx(f.clone()), true, false)])), 1, None, Q::Lazy), Lit('c')]));
+    }
+    dedup_by_print(out)
+}
+
 /// contexts that introduce conditionals (C15)
 pub fn cond_contexts() -> Vec<Ctx> {
     fn g(n: Node) -> Node {
